@@ -1,0 +1,21 @@
+//! Verification pause points (only built with the `verif-hooks` feature).
+//!
+//! `BRUSH_VERIF_PAUSES` holds a comma-separated list of `point=millis` entries; reaching a
+//! named point sleeps the calling thread for that long. Used by external checkers to force
+//! particular orderings of pipeline-stage starts and job completions.
+
+/// Sleeps at the named pause point if one is configured for it.
+pub fn pause(point: &str) {
+    let Ok(spec) = std::env::var("BRUSH_VERIF_PAUSES") else {
+        return;
+    };
+    for entry in spec.split(',') {
+        if let Some((name, millis)) = entry.split_once('=') {
+            if name == point {
+                if let Ok(millis) = millis.parse::<u64>() {
+                    std::thread::sleep(std::time::Duration::from_millis(millis));
+                }
+            }
+        }
+    }
+}
